@@ -4,6 +4,8 @@ Driver ops for C15 (module loader).
   modgraph <callFuel> <main-path> <nfiles> <file>* <nlibs> <lib>*        model  (Model.Modules.run, default oracle)
   spec:modgraph …                                                        spec oracle (Spec.ModuleSem.specRun)
   modgraph-rev …      model with the DFS started in reverse node order and exports ranged in reverse order
+  modgraph-pinned …   model with the finder of the tree before fix 420e70b (`Variant.pinned`: names joined and cleaned by
+                      filepath.Join; a path component `2e.2e` in a file key = the parent of the main file's directory)
 
   file := <path> <nimports> <imp>* <nitems> <item>*
   path := segments joined by `/`, each a dot-separated hex code-point list
@@ -137,13 +139,19 @@ def handle (op : String) (args : List String) : Option String :=
     some (match parseCase args with
       | none => "bad-case"
       | some c =>
-        let o := run Oracle.default c.files c.libs c.callFuel c.mainPath
+        let o := run .repaired Oracle.default c.files c.libs c.callFuel c.mainPath
         s!"{showErr o.err} | {showTrace o.trace}")
   | "modgraph-rev" =>
     some (match parseCase args with
       | none => "bad-case"
       | some c =>
-        let o := run revOracle c.files c.libs c.callFuel c.mainPath
+        let o := run .repaired revOracle c.files c.libs c.callFuel c.mainPath
+        s!"{showErr o.err} | {showTrace o.trace}")
+  | "modgraph-pinned" =>
+    some (match parseCase args with
+      | none => "bad-case"
+      | some c =>
+        let o := run .pinned Oracle.default c.files c.libs c.callFuel c.mainPath
         s!"{showErr o.err} | {showTrace o.trace}")
   | "spec:modgraph" =>
     some (match parseCase args with
